@@ -93,6 +93,7 @@ func runC34Verify(r *core.Run) {
 				}
 			}
 		}
+		w.sample.Accepted, w.sample.Refused = acc, rej
 		if acc > 0 && rej > 0 {
 			r.Nontrivial = true
 		}
@@ -129,10 +130,16 @@ type providerSim struct {
 }
 
 func (p *providerSim) addLocal(c *chainEnt) {
-	if !p.inLocal[c] {
-		p.inLocal[c] = true
-		p.local = append(p.local, c)
+	if p.inLocal[c] {
+		return
 	}
+	p.inLocal[c] = true
+	for _, x := range p.local {
+		if fp(x.certs) == fp(c.certs) {
+			return // the same certificates (two "CA certificate as leaf" chains of one CA)
+		}
+	}
+	p.local = append(p.local, c)
 }
 
 func runC34Provider(r *core.Run) { runC34GetChains(r, false) }
@@ -187,6 +194,7 @@ func runC34GetChains(r *core.Run, faults bool) {
 				}
 			}
 		}
+		w.sample.Accepted, w.sample.Refused = handed, refused
 		if handed > 0 && refused > 0 {
 			r.Nontrivial = true
 		}
@@ -371,7 +379,8 @@ func (p *providerSim) loadDir(ctx context.Context, now time.Time) bool {
 		want := ok && !p.inLocal[c] && !seen[c]
 		if want != isLoaded[name] {
 			r.Fail("c34-load-mismatch", "load-mismatch:"+c.defect, "LoadChains at %s: file %s (chain %s defect %q, %s) loaded=%v, ground truth %v; ignored: %v",
-				now.Format(time.RFC3339), name, c.name, c.defect, how, isLoaded[name], want, res.Ignored[filepath.Join(dir, name)])
+				now.Format(time.RFC3339), name, c.name, c.defect, how, isLoaded[name], want,
+				strings.ReplaceAll(fmt.Sprint(res.Ignored[filepath.Join(dir, name)]), dir, "<dir>"))
 			return false
 		}
 		if isLoaded[name] {
